@@ -18,7 +18,7 @@ pub mod resolv;
 pub mod tcp;
 pub mod udp;
 
-pub use tcp::{tcp_connect_from, tcp_listen, tcp_reset, tcp_reset_id, SimTcpInfo};
+pub use tcp::{tcp_connect_diverted, tcp_connect_from, tcp_listen, tcp_reset, tcp_reset_id, SimTcpInfo};
 pub use udp::{udp_bind_at, udp_inject_error};
 
 /// splitmix64 based PRNG: tiny, fast, identical on every platform.
@@ -255,6 +255,22 @@ pub(crate) fn world() -> WorldGuard {
 pub fn with<R>(f: impl FnOnce(&mut World) -> R) -> R {
     let mut w = world();
     f(&mut w)
+}
+
+/// Kernel lane fault: splice(2) may move any count in 1..=len. With the plan's `short_write` rate the
+/// request is clamped to a seeded shorter length (nix facade, `fcntl::splice`).
+pub fn short_splice_len(len: usize) -> usize {
+    if len <= 1 || !is_started() {
+        return len;
+    }
+    let mut w = world();
+    let pm = w.cfg.chaos.short_write;
+    if pm > 0 && w.sched_rng.chance(pm) {
+        w.count("short_splice");
+        1 + w.sched_rng.below(len as u64 - 1) as usize
+    } else {
+        len
+    }
 }
 
 pub fn is_started() -> bool {
